@@ -219,9 +219,15 @@ def run_history(case, rnd):
         return {"counters": {"build_failed": 1}, "classes": sorted(classes), "violations": [], "nontrivial": False}
     V, nt = [], False
     for k in range(case["n_edits"]):
-        e = h.propose(["num", "num", "link", "list_assign", "list_mut", "list_mut", "starts", "group"])
+        risky = rnd.random() < 0.25
+        e = edits.risky_edit(rnd, h.spec, h.objs) if risky else h.propose(["num", "num", "link", "list_assign", "list_mut", "list_mut", "starts", "group"])
+        if e is None:
+            continue
         if h.apply(e) is not None:
-            break
+            # a refused edit (whatever the exception type) leaves a model in which volumes are still conserved
+            tot["checks_after_refused_edit"] = tot.get("checks_after_refused_edit", 0) + 1
+            if not risky:
+                break
         v, c, n = check(h.spec, h.objs)
         nt = nt or n
         tot["live_checks_after_edit"] += 1
